@@ -1,14 +1,76 @@
-(* C27 — property theorems (first round: the unchanged code refutes the property). *)
-From PV Require Import Lib.Base C27.Model.
+(* C27 — property theorems. Statements are pinned by props/C27.json. *)
+From PV Require Import Lib.Base C27.Model C27.Proofs.
 Open Scope Z_scope.
 
+Definition wf_cfg (c : cfg) : Prop := 0 <= max_peers c /\ 0 <= max_warm c /\ 0 <= max_hot c.
+
+(* the invariant holds initially *)
+Theorem inv_init : forall c, wf_cfg c -> Inv c init.
+Proof. intros c (H1 & H2 & H3). apply (good_init c H2 H3 H1). Qed.
+
+(* the invariant (with its tag companion) is preserved by every command / interface event *)
+Theorem inv_step : forall c st e st' out,
+  Inv c st /\ TagInv st -> step c st e = Ok (st', out) -> Inv c st' /\ TagInv st'.
+Proof. intros c st e st' out G H. exact (proj1 (step_good c st e st' out G H)). Qed.
+
+(* ... hence by every history, from the initial state: the cold, warm, hot and banned
+   sets are pairwise disjoint and within their limits in every reachable state *)
+Theorem inv_reachable : forall c evs st, wf_cfg c -> state_after c evs = Some st -> Inv c st.
+Proof.
+  intros c evs st (H1 & H2 & H3) H. unfold state_after in H.
+  destruct (run c init evs) as [[st1 outs]| |] eqn:E; inversion H; subst.
+  exact (proj1 (proj1 (run_good c evs init st outs (good_init c H2 H3 H1) E))).
+Qed.
+
+(* once a peer is in the banned set, no later step of any continuation emits Connect for it *)
+Theorem banned_never_connected : forall c evs1 evs2 st1 outs1 st2 outs2 p,
+  wf_cfg c ->
+  run c init evs1 = Ok (st1, outs1) -> In p (banned (pr st1)) ->
+  run c st1 evs2 = Ok (st2, outs2) ->
+  forall out, In out outs2 -> ~ In (OConnect p) out.
+Proof.
+  intros c evs1 evs2 st1 outs1 st2 outs2 p (H1 & H2 & H3) R1 B R2 out Hin.
+  pose proof (run_good c evs1 init st1 outs1 (good_init c H2 H3 H1) R1) as (G1 & _).
+  pose proof (run_good c evs2 st1 st2 outs2 G1 R2) as (_ & _ & N).
+  exact (N p out B Hin).
+Qed.
+
+(* the banned set never shrinks *)
+Theorem banned_monotone : forall c evs st st' outs p,
+  wf_cfg c -> state_after c evs = Some st ->
+  forall evs2, run c st evs2 = Ok (st', outs) -> In p (banned (pr st)) -> In p (banned (pr st')).
+Proof.
+  intros c evs st st' outs p (H1 & H2 & H3) H evs2 R B. unfold state_after in H.
+  destruct (run c init evs) as [[st1 o1]| |] eqn:E; inversion H; subst.
+  pose proof (run_good c evs init st o1 (good_init c H2 H3 H1) E) as (G1 & _).
+  pose proof (run_good c evs2 st st' outs G1 R) as (_ & BM & _). exact (BM p B).
+Qed.
+
+(* the three ban causes put the peer into the banned set *)
+Theorem ban_command_bans : forall c st p st' out, step c st (EBan p) = Ok (st', out) -> In p (banned (pr st')).
+Proof. exact ban_command_in. Qed.
+
+Theorem violation_bans : forall c st p s m st' out,
+  Inv c st /\ TagInv st -> lookup p (peers st) = Some s -> viol (apply_msg s m) = true ->
+  step c st (ERecv p [m]) = Ok (st', out) -> In p (banned (pr st')).
+Proof. exact violation_in. Qed.
+
+Theorem flagged_peer_banned_when_categorized : forall c p pr0 s pr1 s1,
+  PInv c pr0 -> viol s = true \/ errc s > max_err c ->
+  categorize c p pr0 s = Ok (pr1, s1) -> In p (banned pr1).
+Proof. exact categorize_flagged. Qed.
+
+(* non-vacuity: a history that fills warm, hot and banned, emits Connect, and satisfies the invariant *)
 Definition cfgB := mkCfg 3 2 1 1.
-
-(* re-including a warm peer puts it into cold as well *)
-Theorem disjoint_refuted : exists evs st, state_after cfgB evs = Some st /\ invb cfgB st = false.
-Proof. exists [EInclude 1; EHousekeeping [] []; EInclude 1]. eexists. split; [vm_compute; reflexivity | vm_compute; reflexivity]. Qed.
-
-(* a peer banned by command while cold is promoted and connected *)
-Theorem banned_cmd_refuted : exists evs outs st,
-  run cfgB init (EInclude 1 :: EBan 1 :: evs) = Ok (st, outs) /\ existsb (connects 1) outs = true.
-Proof. exists [EHousekeeping [] []]. eexists. eexists. split; [vm_compute; reflexivity | vm_compute; reflexivity]. Qed.
+Definition demo : list event :=
+  [EInclude 1; EInclude 2; EInclude 3; EHousekeeping [] []; EConnected 1;
+   ESent 1 (HsPropose [(13, 764824073)]); ERecv 1 [HsAccept 13 1]; EBan 3; EHousekeeping [] [];
+   EConnected 2; ERecv 2 [KaResponse 42]; EHousekeeping [] []].
+Example demo_runs :
+  wf_cfg cfgB /\
+  match run cfgB init demo with
+  | Ok (st, outs) => invb cfgB st = true /\ hot (pr st) = [1] /\ banned (pr st) = [3; 2] /\
+                     existsb (connects 1) outs = true /\ existsb (connects 3) outs = false
+  | _ => False
+  end.
+Proof. split; [unfold wf_cfg, cfgB; cbn; lia | vm_compute; repeat split; reflexivity]. Qed.
